@@ -6,13 +6,14 @@ import (
 	"os"
 	"sort"
 	"strconv"
+	"strings"
 	"testing"
 
 	"github.com/tucats/ego/verif/workerproc"
 	"pgregory.net/rapid"
 )
 
-// Development aid (C07_SURVEY=<out.json> [C07_SURVEY_CLASS=sem]): run many
+// Development aid (C07_SURVEY=<out.json> [C07_SURVEY_CLASS=sem|seq]): run many
 // generated cases through the worker only (no CLI confirmation, no
 // shrinking) and record, per crash signature, the shortest source seen. Used
 // to enumerate root causes on the unchanged tree before triage.
@@ -32,8 +33,11 @@ func TestSurvey(t *testing.T) {
 	hits := map[string]*hit{}
 	hist := map[string]int{}
 	g := gen
-	if os.Getenv("C07_SURVEY_CLASS") == "sem" {
+	switch os.Getenv("C07_SURVEY_CLASS") {
+	case "sem":
 		g = genSem
+	case "seq":
+		g = genSeq
 	}
 	save := func() {
 		var hs []*hit
@@ -50,6 +54,13 @@ func TestSurvey(t *testing.T) {
 		src := c.Source()
 		v := thePool.exec(c, src)
 		hist[c.Class+" "+c.Entry+" "+v.status+" "+v.res.Phase]++
+		if v.res.Msg != "" {
+			m := v.res.Msg
+			if i := strings.Index(m, ", "); i > 0 {
+				m = m[i+2:]
+			}
+			hist["msg: "+m]++
+		}
 		sig := ""
 		if v.status == "crash" {
 			sig = v.crash.Sig
